@@ -3,6 +3,7 @@ import RbV.Ref.BS
 import RbV.Model.LFMapping
 import RbV.Model.LFSortedCheck
 import RbV.Model.SampledSA
+import RbV.Model.SampleBuild
 /-! Driver for property C05: FM-index backward search.
 
 `c05 <s1>/<s2>/… a:<alphabet> k:<occ rate> s:<sa sampling> m:<o|b|a> <p1>/<p2>/… => <sa> <r1>/<r2>/…`
@@ -83,8 +84,9 @@ def sampledModelAgrees (t sa : List Nat) (s : Nat) (obs : List Obs) : Option Boo
   if s > 16 && sa.length > 130 then none else
   let bwt := LF.bwtOf t sa
   let sent := t.getD (t.length - 1) 0
+  let built := SampledModel.build sa bwt s sent sa.length
   let get := SampledModel.get s bwt sent (LF.lessRef bwt) (LF.occRef bwt)
-    (fun q => sa.getD (q * s) 0) (fun pos => sa.getD pos 0) sa.length
+    (SampledModel.sampleGet built.1) (SampledModel.extraGet built.2) sa.length
   some (obs.all (fun o =>
     match o.res, o.samp with
     | .complete lo _, some g => ((g.take 6).zipIdx).all (fun (v, i) => get (lo + i) == some v)
